@@ -15,6 +15,7 @@ CORPUS = [
     (0, [1, 1], [1], ['Rt/Ok:B:1:1', 'Rt/Ok:S:1:0', 'Rt/Ok:B:1:0']),                                          # duplicate root
     (0, [1, 2], [1, 2], ['Rt/Ok:S:1:0', 'Rt/Ok:S:2:0', 'Rt/Ok:B:2:1', 'Rt/Ok:B:1:1']),                       # builds last
     (0, [1], [1, 2], ['Rt/Ok:B:2:0', 'Rt/Ok:S:2:1', 'Rt/Ok:B:1:0', 'Rt/Ok:S:1:0']),                          # foreign acks
+    (0, [1], [1], ['Rt/Ok:S:1:1', 'Rt/Ok:B:1:1', 'Rt/Ok:B:1:1', 'TM']),                                       # both kinds actual (aggregate root)
     (0, [1], [1], ['TM', 'Rt/Ok:B:1:0']),                                                                    # signal first
     (0, [1], [1], ['Rt/Ok:S:1:1', 'Rt/Ok:B:1:0', 'Er/1', 'TM']),                                             # error while kept alive
     (0, [1, 2], [1, 2], ['Rt/Ok:S:1:1', 'Rt/Iv:S:1', 'Rt/Ok:B:1:0', 'Rt/Ok:B:2:0', 'Rt/Ok:S:2:0', 'TM']),   # invalidation ignored
@@ -37,7 +38,8 @@ def gen_case(rng):
     for (k, r) in acks:
         while rng.random() < 0.35:
             ev.append(noise(rng, pool, roots))
-        actual = (rng.random() < 0.6) if (k == 'S' and svc_actual) else (rng.random() < 0.15)
+        # builds acknowledge with actual = true; an aggregate acknowledges a kind with actual = whether something of that kind is behind it
+        actual = (rng.random() < 0.6) if (k == 'S' and svc_actual) else (rng.random() < (0.7 if k == 'B' else 0.1))
         ev.append('Rt/Ok:%s:%d:%d' % (k, r, 1 if actual else 0))
     for _ in range(rng.choice([0, 1, 2, 3])):
         ev.append(noise(rng, pool, roots))
